@@ -319,6 +319,26 @@ RULE_ADDENDA["C07"] = "follow-ups include a second leaked handle and appending t
 RULE_ADDENDA["C05"] += "; growth of the vector between two steps of a live typed drain/splice handle (native, ASan, valgrind)"
 RULE_ADDENDA["C08"] = RULE_ADDENDA.get("C08", "") 
 RULE_ADDENDA["C17"] = "a release with another layout than the allocation (alloc-layout) counts as a symptom"
+# observation floors for the workloads added in rounds 5-6 (a workload that silently did not run makes the check inconclusive)
+_FLOORS = {
+    "C01": {"scale_stages": 40, "overaligned_stack_placements": 50},
+    "C02": {"scale_stages": 40, "large_iter_elements": 1000000},
+    "C03": {"scale_stages": 40},
+    "C04": {"meta_chains": 50},
+    "C05": {"scale_stages": 40, "large_capacity_requests": 2000, "live_handle_growths": 50, "prealloc_backend_cases": 50},
+    "C08": {"scale_stages": 40, "meta_chains": 50, "prealloc_backend_cases": 50},
+    "C10": {"large_capacity_requests": 2000, "amortisation_pushes": 1000000},
+    "C11": {"overaligned_stack_placements": 50},
+    "C12": {"scale_stages": 40, "large_capacity_requests": 2000, "meta_chains": 50, "overaligned_stack_placements": 50},
+    "C13": {"scale_stages": 40},
+    "C14": {"scale_stages": 40, "large_iter_elements": 1000000},
+    "C18": {"scale_stages": 20, "large_capacity_requests": 2000, "meta_chains": 50},
+}
+for _p, _f in _FLOORS.items():
+    for _tier, _d in CHECKS[_p].setdefault("floors", {}).items():
+        _d.update(_f)
+
+
 def _add(p, t):
     RULE_ADDENDA[p] = (RULE_ADDENDA[p] + "; " if RULE_ADDENDA.get(p) else "") + t
 _META = "getters (element_layout/typeid/drop/clone, len, capacity) through clone_empty / clone_empty_in hops across all backends for 15 element layouts incl. alignments 16-64"
